@@ -4,7 +4,7 @@
 From Coq Require Import Permutation.
 From Perf Require Import Base.Bytes Model.Runes Model.TextTab Model.KeyHeader
      Proofs.Runes Proofs.TextTabWidths Proofs.TextTabEmit Proofs.TextTabFormat
-     Proofs.TextTabBuild Proofs.TextTabTop Proofs.KeyHeader.
+     Proofs.TextTabBuild Proofs.TextTabTop Proofs.KeyHeader Model.Render Proofs.Render.
 Local Open Scope Z_scope.
 
 (** after the widest-first loop over a non-empty set of growable columns — in
@@ -145,6 +145,97 @@ Theorem C16_header_partition_partial : forall level keys,
 Proof. exact header_runs_partition. Qed.
 Print Assumptions C16_header_partition_partial.
 
+Local Open Scope nat_scope.
+(** ** text and CSV renderings agree (placement; the strings are the real
+    Table's formatted values). [csv_start e] / [txt_start e] are the first CSV /
+    texttab column of logical column [e]; the delta sits in the first column
+    after the centre group in both. [place 0 ops] lists the (column, call) of
+    every Cell/Span call; by C16_place_is_build these are the cells' columns. *)
+
+(** data rows: label, centre, range; delta and p/n for non-baseline columns *)
+Theorem C16_text_csv_agree_data : forall srow wl label cells e c,
+  nth_error cells e = Some (Some c) ->
+  let crow := fst (csv_data_row srow label cells) in
+  let tops := snd (text_data_ops wl label cells) in
+  field crow 0 = label /\ In (0, OSpan 1 label None ALeft) (place 0 tops) /\
+  field crow (csv_start e) = rc_csv c /\ In (txt_start e, OSpan 1 (rc_txt c) None ARight) (place 0 tops) /\
+  field crow (csv_start e + 1) = rc_range c /\
+  In (txt_start e + 1, OSpan 1 (rc_range c) (Some (bs " ± ")) ARight) (place 0 tops) /\
+  (0 < e -> forall cm, rc_cmp c = Some cm ->
+     field crow (csv_start e + csv_center) = cm_delta cm /\
+     In (txt_start e + txt_center, OSpan 1 (cm_delta cm) None ARight) (place 0 tops) /\
+     field crow (csv_start e + csv_center + 1) = cm_pn cm /\
+     In (txt_start e + txt_center + 1, OSpan 1 (bs "(" ++ cm_pn cm ++ bs ")") None ALeft) (place 0 tops))%nat.
+Proof. exact text_csv_agree_data. Qed.
+Print Assumptions C16_text_csv_agree_data.
+
+(** summary row, every HasSummary / HasRatio combination: the geomean under the
+    centre column, its delta (or "?") under the first delta column — in both *)
+Theorem C16_text_csv_agree_summary : forall srow wl label sums e s,
+  nth_error sums e = Some (Some s) ->
+  let crow := fst (csv_summary_row srow label sums) in
+  let tops := snd (text_summary_ops wl label sums) in
+  field crow 0 = label /\ In (0, OSpan 1 label None ALeft) (place 0 tops) /\
+  (rs_has s = true ->
+     field crow (csv_start e) = rs_csv s /\ In (txt_start e, OSpan 1 (rs_txt s) None ARight) (place 0 tops)) /\
+  (0 < e ->
+     field crow (csv_start e + csv_center) = ratio_text s /\
+     In (txt_start e + txt_center, OSpan 1 (ratio_text s) None (if rs_hasratio s then ARight else ALeft))
+        (place 0 tops))%nat.
+Proof. exact text_csv_agree_summary. Qed.
+Print Assumptions C16_text_csv_agree_summary.
+
+(** unit row: the unit over the centre group, "vs base" over the first delta column *)
+Theorem C16_text_csv_agree_unit : forall unit n redge e,
+  (e < n)%nat ->
+  let crow := csv_unit_row unit n in
+  let tops := text_unit_ops unit n redge in
+  field crow (csv_start e) = unit /\ In (txt_start e, OSpan txt_center unit (Some bar3) ACenter) (place 0 tops) /\
+  (0 < e -> field crow (csv_start e + csv_center) = bs "vs base" /\
+            In (txt_start e + txt_center, OSpan 3 (bs "vs base") (Some [sp; sp]) ALeft) (place 0 tops))%nat.
+Proof. exact text_csv_agree_unit. Qed.
+Print Assumptions C16_text_csv_agree_unit.
+
+(** CSV column-key header rows: field [f] of column [e]'s key at csv_start e.
+    PARTIAL on the text side: that the text header cell covering column [e] at
+    level [f] carries the same value needs the all-levels KeyHeader theorem
+    (see C16_header_partition_partial); it is checked on every observed table
+    ([header_ok], [text_csv_ok]). *)
+Theorem C16_csv_header_at : forall cols f e key,
+  nth_error cols e = Some key -> field (csv_header_row cols f) (csv_start e) = kget f key.
+Proof. exact csv_header_at. Qed.
+Print Assumptions C16_csv_header_at.
+
+(** the columns [place] computes are the columns of the cells texttab lays out *)
+Theorem C16_place_is_build : forall ops t col o,
+  build ops = Some t -> In (col, o) (place 0 ops) ->
+  exists c, In c (t_cells t) /\ c_col c = col /\ (c_span c, c_val c, c_align c) = op_sig o.
+Proof. exact place_is_build. Qed.
+Print Assumptions C16_place_is_build.
+
+(** non-vacuity: a 2-column table whose second column has no geomean: the
+    delta "?" is in CSV column 5 (= csv_start 1 + 2, under "vs base") *)
+Example C16_text_csv_example :
+  let s0 := mkRS true (bs "14.67") (bs "14.67") false [] [] in
+  let s1 := mkRS false (bs "0") (bs "0.000") false (bs "-100.00%") [bs "summaries must be >0 to compute geomean"] in
+  fst (csv_summary_row 7 (bs "geomean") [Some s0; Some s1])
+    = [bs "geomean"; bs "14.67"; []; []; []; bs "?"] /\
+  In (7, OSpan 1 (bs "?") None ALeft)%nat (place 0 (snd (text_summary_ops [] (bs "geomean") [Some s0; Some s1]))) /\
+  csv_unit_row (bs "sec/op") 2 = [[]; bs "sec/op"; bs "CI"; bs "sec/op"; bs "CI"; bs "vs base"; bs "P"].
+Proof. repeat split; vm_compute; tauto. Qed.
+
+(** ToCSV's warning cell references BEFORE hooks/fix_c16_csv_cellref.diff: from CSV
+    column 26 on (8 logical columns) the name is not the spreadsheet column
+    (26 -> "BA" instead of "AA", 27 -> "BB" instead of "AB") *)
+Theorem C16_csv_cellref_refuted :
+  col_name_asis 26 = bs "BA" /\ sheet_col 26 = bs "AA" /\ col_name_asis 27 = bs "BB" /\ sheet_col 27 = bs "AB" /\
+  (forall n, n < 26 -> col_name_asis n = sheet_col n).
+Proof.
+  repeat split; try (vm_compute; reflexivity).
+  intros n Hn. do 26 (destruct n as [|n]; [vm_compute; reflexivity|]). lia.
+Qed.
+
+Local Open Scope Z_scope.
 (** ** witnesses *)
 Definition bar2 : bytes := bs " │".
 Definition witness_ops : list op :=
